@@ -38,6 +38,12 @@ func (db *db) set(id int, key string, tree *Tree) {
 	db.mux.Lock()
 	var idx int
 	if idx = db.getIdxLF(id, key); idx >= 0 && idx < len(db.tpl) {
+		// The slot is reused: forget the hash of the replaced tree if it points to this slot.
+		if old := db.tpl[idx]; old != nil && old.tree != nil {
+			if i, ok := db.idxHash[old.tree.hsum]; ok && i == idx {
+				delete(db.idxHash, old.tree.hsum)
+			}
+		}
 		db.tpl[idx] = &tpl
 	} else {
 		db.tpl = append(db.tpl, &tpl)
